@@ -484,9 +484,10 @@ class PathResult:
         self.ctx = None   # the path context (and its solver) is not retained: only pc / decisions are needed later
 
 
-def explore(run, max_paths=20000, timeout_ms=20000, base_pc=()):
-    """Enumerate all feasible paths of `run(ctx)`; returns list of PathResult."""
-    worklist = [[]]
+def explore(run, max_paths=20000, timeout_ms=20000, base_pc=(), initial=None):
+    """Enumerate all feasible paths of `run(ctx)`; returns list of PathResult.
+    initial: decision prefixes to start from (only their extensions are explored)."""
+    worklist = [list(d) for d in initial] if initial is not None else [[]]
     results = []
     while worklist:
         if len(results) >= max_paths:
